@@ -6,6 +6,7 @@ from lunaverif.core import Sub, Result, fail
 from lunaverif.gen import long_lists, weighted, bits
 from lunaverif.bfm import g7_ulpi_phy as P
 from lunaverif.bfm import g7_ulpi_gen as G
+from lunaverif.bfm import g7_ulpi_rst as RST
 
 PROPERTY = "C24"
 ASSUMPTIONS = [
@@ -18,6 +19,16 @@ ASSUMPTIONS = [
     "some cycle between the previous cleanly committed write (minus 2 cycles) and its own commit (retries of an "
     "interrupted write belong to the same transaction)",
     "UTMI transmit source holds tx_valid/tx_data until tx_ready; tx_valid is low >= 1 cycle between packets",
+    "reset sub: the ULPI bus has a reset pin (as on every LUNA platform), which UTMITranslator wires to the reset of "
+    "the `usb` domain, so a reset of that domain (any length >= 1 cycle, at any point of the history) also resets "
+    "the PHY: its registers return to the ULPI defaults (Function Control 0x41, OTG Control 0x06) and its bus "
+    "state to idle; the UTMI transmit source sits in the same domain (tx_valid low from the first reset cycle); "
+    "the control inputs keep their values across the reset unless the history changes them",
+    "reset sub: after power-up and after each reset the link may leave the bus alone for the PHY's start-up time "
+    "(1 ms = 60000 cycles at 60 MHz; a subclass overriding only the class constant _CYCLES_1_MILLISECONDS scales "
+    "it to 120 cycles for most cases); 'eventually' and the K quiet cycles are counted from the end of that wait. "
+    "A ULPI bus without reset pin is not subjected to domain resets (the statement does not say what the PHY "
+    "holds then)",
 ]
 
 COMPOSITE = {P.FUNC_CTRL: P.func_ctrl_value, P.OTG_CTRL: P.otg_ctrl_value}
@@ -32,6 +43,57 @@ def ctl_at(log, t):
         else:
             break
     return cur
+
+
+def judge_writes(phy, log, where=""):
+    """Safety: each write the PHY committed addresses 0x04/0x0A and carries a value requested for that register."""
+    prev_commit = 0
+    for w in phy.writes:
+        if not w["committed"]:
+            continue
+        a = w["addr"]
+        if a not in COMPOSITE:
+            return fail(f"{where}cycle {w['t_commit']}: write to register 0x{a:02x} (never requested)",
+                        signature="write-to-unrequested-register")
+        lo, hi = max(0, prev_commit - 2), w["t_commit"]
+        legal = {COMPOSITE[a](ctl_at(log, t)) for t in range(lo, hi + 1)}
+        if w["data"] not in legal:
+            other = P.OTG_CTRL if a == P.FUNC_CTRL else P.FUNC_CTRL
+            olegal = {COMPOSITE[other](ctl_at(log, t)) for t in range(lo, hi + 1)}
+            sig = "write-carries-other-registers-value" if w["data"] in olegal else "write-carries-unrequested-value"
+            return fail(f"{where}{REG_NAME[a]} write committed in cycle {w['t_commit']} (command seen {w['t_seen']}) "
+                        f"carries 0x{w['data']:02x}; values requested for it in cycles {lo}..{hi}: "
+                        f"{sorted(hex(v) for v in legal)}", signature=sig)
+        if not w.get("dir_in_stp"):
+            # a write the PHY committed although DIR rose in its STP cycle is retried by a link that treats
+            # it as aborted: the retry is the same transaction and may carry the value latched at its start
+            prev_commit = w["t_commit"]
+    return None
+
+
+def judge_settled(drv, K, cap, where="", sig_suffix=""):
+    """Bounded liveness: the run became quiet, and then the PHY's registers equal the requested composites."""
+    phy = drv.phy
+    log = drv.ctl_log
+    if drv.ended != "quiet":
+        if drv.tx is not None:
+            return fail(f"{where}transmission requested in cycle {drv.tx['t_start']} still pending at the cap "
+                        f"({cap} cycles; PHY state {P.STATE_NAMES[phy.state]})",
+                        signature="transmission-blocked" + sig_suffix)
+        return fail(f"{where}bus never became quiet for {K} cycles within {cap} cycles (last PHY activity "
+                    f"{phy.busy_last})", signature="register-writes-never-settle" + sig_suffix)
+    final = log[-1][1]
+    for a in (P.FUNC_CTRL, P.OTG_CTRL):
+        want = COMPOSITE[a](final)
+        if phy.regs[a] != want:
+            wr = [(w["t_commit"], hex(w["data"])) for w in phy.writes if w["committed"] and w["addr"] == a]
+            last_change = log[-1][0]
+            return fail(f"{where}after {K} quiet cycles the PHY's {REG_NAME[a]} holds 0x{phy.regs[a]:02x}, requested "
+                        f"0x{want:02x} (inputs constant since cycle {last_change}; committed writes to it {wr})",
+                        signature="register-not-converged-" + REG_NAME[a] + sig_suffix)
+    if any(r["t_end"] is None for r in drv.tx_log):
+        return fail(f"{where}a transmission never completed", signature="transmission-blocked" + sig_suffix)
+    return None
 
 
 class Converge(Sub):
@@ -77,48 +139,14 @@ class Converge(Sub):
         log = drv.ctl_log
         labels = set()
 
-        # ---- safety: each committed write carries a value requested for the register it addresses ----------
-        prev_commit = 0
-        for w in phy.writes:
-            if not w["committed"]:
-                continue
-            a = w["addr"]
-            if a not in COMPOSITE:
-                return fail(f"cycle {w['t_commit']}: write to register 0x{a:02x} (never requested)",
-                            signature="write-to-unrequested-register")
-            lo, hi = max(0, prev_commit - 2), w["t_commit"]
-            legal = {COMPOSITE[a](ctl_at(log, t)) for t in range(lo, hi + 1)}
-            if w["data"] not in legal:
-                other = P.OTG_CTRL if a == P.FUNC_CTRL else P.FUNC_CTRL
-                olegal = {COMPOSITE[other](ctl_at(log, t)) for t in range(lo, hi + 1)}
-                sig = "write-carries-other-registers-value" if w["data"] in olegal else "write-carries-unrequested-value"
-                return fail(f"{REG_NAME[a]} write committed in cycle {w['t_commit']} (command seen {w['t_seen']}) "
-                            f"carries 0x{w['data']:02x}; values requested for it in cycles {lo}..{hi}: "
-                            f"{sorted(hex(v) for v in legal)}", signature=sig)
-            if not w.get("dir_in_stp"):
-                # a write the PHY committed although DIR rose in its STP cycle is retried by a link that treats
-                # it as aborted: the retry is the same transaction and may carry the value latched at its start
-                prev_commit = w["t_commit"]
+        bad = judge_writes(phy, log)
+        if bad is not None:
+            return bad
 
         # ---- bounded liveness -------------------------------------------------------------------------------
-        if drv.ended != "quiet":
-            if drv.tx is not None:
-                return fail(f"transmission requested in cycle {drv.tx['t_start']} still pending at the cap "
-                            f"({cap} cycles; PHY state {P.STATE_NAMES[phy.state]})",
-                            signature="transmission-blocked")
-            return fail(f"bus never became quiet for {K} cycles within {cap} cycles (last PHY activity "
-                        f"{phy.busy_last})", signature="register-writes-never-settle")
-        final = log[-1][1]
-        for a in (P.FUNC_CTRL, P.OTG_CTRL):
-            want = COMPOSITE[a](final)
-            if phy.regs[a] != want:
-                wr = [(w["t_commit"], hex(w["data"])) for w in phy.writes if w["committed"] and w["addr"] == a]
-                last_change = log[-1][0]
-                return fail(f"after {K} quiet cycles the PHY's {REG_NAME[a]} holds 0x{phy.regs[a]:02x}, requested "
-                            f"0x{want:02x} (inputs constant since cycle {last_change}; committed writes to it {wr})",
-                            signature="register-not-converged-" + REG_NAME[a])
-        if any(r["t_end"] is None for r in drv.tx_log):
-            return fail("a transmission never completed", signature="transmission-blocked")
+        bad = judge_settled(drv, K, cap)
+        if bad is not None:
+            return bad
 
         # ---- classification ---------------------------------------------------------------------------------
         inflight = [s for t, s in drv.ctl_sync_hits[0:] if s in ("CMD", "RWD", "RWS")]
@@ -147,4 +175,169 @@ class Converge(Sub):
         return Result(ok=True, nontrivial=nontrivial, labels=tuple(sorted(labels)))
 
 
-SUBS = [Converge()]
+def event_cap(evs, D, K):
+    cap = 400 + K + sum(e["gap"] for e in evs) + len(evs) * (110 + 12 * D)
+    for e in evs:
+        if e["k"] == "rx":
+            cap += sum(s["n"] + sum(1 + b[1] for b in s.get("b", ())) + 3 for s in e["segs"])
+        elif e["k"] == "tx":
+            cap += (len(e["bytes"]) + 3) * (D + 1)
+    return cap
+
+
+def real_cases():
+    """A handful of constructed histories for the unmodified (60000-cycle start-up wait) translator: ~5 s each."""
+    def ctl(**kw):
+        c = dict(G.RESET_CTL)
+        c.update(kw)
+        return c
+
+    def chg(gap, late, **kw):
+        return dict(k="ctl", gap=gap, sync=0, set=kw, late=late)
+
+    def tx(gap, late, data):
+        return dict(k="tx", gap=gap, sync=0, bytes=data, late=late)
+
+    def ep(ev=(), rst=1, set=None, cut=None):
+        return dict(rst=rst, set=set or {}, ev=list(ev), cut=cut)
+
+    fs_dev = ctl(xcvr_select=1, term_select=1, dp_pulldown=0, dm_pulldown=0)
+    hs_host = ctl(xcvr_select=0, use_external_vbus_indicator=1)
+    susp = ctl(xcvr_select=1, term_select=1, suspend=1, id_pullup=1, dp_pulldown=0)
+    return [
+        dict(init=fs_dev, delays=[0], cds=0, epochs=[ep(), ep(rst=8)]),
+        dict(init=hs_host, delays=[1, 0, 2], cds=0,
+             epochs=[ep([chg(3, 1, op_mode=2)]), ep([tx(5, 1, [0xC3, 1, 2, 3])], rst=1)]),
+        dict(init=dict(G.RESET_CTL), delays=[0, 3], cds=1,
+             epochs=[ep([chg(7, 0, term_select=1), chg(20, 1, term_select=0, chrg_vbus=1)]),
+                     ep([chg(2, 0, op_mode=1)], rst=3, set=dict(xcvr_select=0))]),
+        dict(init=fs_dev, delays=[3], cds=0, epochs=[ep(cut=12), ep(rst=2)]),
+        dict(init=susp, delays=[2, 5], cds=0,
+             epochs=[ep([tx(9, 0, [0x4B, 0x55])]), ep([chg(1, 1, suspend=0)], rst=70, set=hs_host)]),
+        dict(init=hs_host, delays=[0, 1], cds=1,
+             epochs=[ep([chg(0, 1, dischrg_vbus=1), chg(1, 1, dischrg_vbus=0)]), ep(rst=1)]),
+    ]
+
+
+class ResetConverge(Sub):
+    """real=False: start-up wait constant scaled to 120 cycles (bulk of the search); real=True: the unmodified
+    UTMITranslator with its 60000-cycle wait (a few cases per run; case field `real` overrides, for replays)."""
+    RULE = ("UTMITranslator on a ULPI bus WITH a reset pin (PHY reset = reset of the usb domain; start-up wait before "
+            "the bus is used) + PHY BFM with a register file that returns to the ULPI defaults on reset: histories "
+            "of 1..4 epochs separated by pulses of the domain reset (1..70 cycles), each epoch an event list as in "
+            "`converge` (control changes inside / after the start-up wait, change-and-revert, transmissions, DIR "
+            "bursts); the reset strikes after the bus became quiet, at a generated cycle or in a generated PHY state "
+            "(inside the wait, with a register-write / transmit command pending, in the write data / STP phase, in "
+            "the transmit data phase); control inputs unchanged, partly or wholly changed while the reset "
+            "is asserted. %s Oracle: per epoch, every write the (fresh) PHY committed addresses 0x04/0x0A and "
+            "carries a value requested for it; every epoch that is not cut short becomes quiet within the cap after "
+            "the start-up wait and then the PHY's Function/OTG Control equal the requested composites; non-trivial "
+            "= a reset struck while the PHY held a non-default register value and the following epoch ran to quiet")
+
+    def __init__(self, real=False):
+        self.real = real
+        if real:
+            self.name = "reset-real"
+            self.budget = {"quick": 0, "thorough": 240}
+            self.shrink_budget = 10
+            self.rule = self.RULE % ("DUT: the unmodified UTMITranslator (60000-cycle start-up wait; idle stretches "
+                                     "of the wait fast-forwarded, stopping early if the link drives the bus), at "
+                                     "most 2 epochs; quick tier: the %d constructed histories of real_cases() "
+                                     "(device / host / default / suspended settings; reset when quiet, inside "
+                                     "a write, with inputs unchanged or changed, events inside and after the "
+                                     "wait) instead of a random search." % len(real_cases()))
+        else:
+            self.name = "reset"
+            self.budget = {"quick": 1600, "thorough": 24000}
+            self.shrink_budget = 120
+            self.rule = self.RULE % ("DUT: a subclass of UTMITranslator overriding only the class constant "
+                                     "_CYCLES_1_MILLISECONDS (start-up wait scaled to 120 cycles).")
+
+    def setup(self):
+        self.h = {}
+
+    def enumerate(self, tier):
+        return real_cases() if self.real else None
+
+    def harness(self, real):
+        if real not in self.h:
+            self.h[real] = RST.make_reset_harness(real)
+        return self.h[real]
+
+    def strategy(self):
+        base = st.one_of(
+            G.ctl_change(sync=weighted([(0, 4), (1, 2), (2, 1), (3, 1)])),
+            G.ctl_change(sync=weighted([(0, 4), (1, 2), (2, 1), (3, 1)])),
+            G.tx_request(sync=weighted([(0, 3), (1, 1), (2, 1)]), max_len=12, average=3),
+            G.burst(trig=weighted([(0, 3), (1, 1), (2, 1), (3, 1)]), p_packet=1))
+        ev = st.tuples(base, weighted([(0, 1), (1, 1)])).map(lambda p: dict(p[0], late=p[1]))
+        one = st.sampled_from(P.CTL_NAMES).flatmap(
+            lambda n: st.tuples(st.just(n), bits(P.CTL_WIDTH.get(n, 1))))
+        during = st.one_of(st.just({}), st.just({}), st.lists(one, min_size=1, max_size=3).map(dict), G.ctl_values())
+        epoch = st.fixed_dictionaries(dict(
+            rst=weighted([(1, 3), (2, 2), (3, 1), (8, 2), (70, 1)]),
+            set=during,
+            ev=long_lists(ev, min_size=0, max_size=8, average=3),
+            cut=st.one_of(st.none(), st.none(), st.integers(-40, 260), st.integers(-40, 260)),
+            cuts=weighted([(0, 3), (1, 1), (2, 1), (3, 1), (4, 1), (5, 1)])))
+        return st.fixed_dictionaries(dict(
+            init=st.one_of(st.just(G.RESET_CTL), G.ctl_values(), G.ctl_values()), delays=G.DELAYS,
+            cds=st.integers(0, 1),
+            epochs=st.lists(epoch, min_size=1 + int(self.real), max_size=2 if self.real else 4)))
+
+    def run(self, case):
+        real = bool(case.get("real", self.real))
+        epochs = case["epochs"][:2] if real else case["epochs"]
+        startup = RST.REAL_STARTUP if real else RST.SCALED_STARTUP
+        D = max(case["delays"])
+        K = 64 + 8 * D
+        caps = [startup + 4 + event_cap(e["ev"], D, K) for e in epochs]
+        total = 8 + sum(caps) + sum(max(1, e.get("rst", 1)) + 2 for e in epochs)
+        drv = RST.ResetChainDriver(case["init"], epochs, case["delays"], quiet=K, startup=startup, caps=caps,
+                                   commit_on_dir_stp=bool(case["cds"]))
+        self.harness(real).run_driver(drv, total)
+        labels = set()
+        nontrivial = False
+        armed = False            # a reset struck while the PHY held a non-default register value
+        for i, ep in enumerate(drv.done):
+            d = ep["drv"]
+            where = f"epoch {i} (starts at cycle {ep['t0']}, local cycle numbers): "
+            bad = judge_writes(d.phy, d.ctl_log, where)
+            if bad is not None:
+                return bad
+            last = i == len(epochs) - 1
+            if ep["cut"] is None or last or d.ended == "quiet":
+                bad = judge_settled(d, K, caps[i], where + ("" if i == 0 else "after a domain reset, "),
+                                    "" if i == 0 else "-after-reset")
+                if bad is not None:
+                    return bad
+                if armed:
+                    nontrivial = True
+                    labels.add("converged-after-reset-of-nondefault-phy")
+            if not last:
+                nondefault = d.phy.regs[P.FUNC_CTRL] != 0x41 or d.phy.regs[P.OTG_CTRL] != 0x06
+                armed = nondefault
+                nxt = epochs[i + 1]
+                new = dict(d.ctl)
+                new.update(nxt.get("set") or {})
+                labels.add("inputs-unchanged-across-reset" if new == d.ctl else "inputs-changed-during-reset")
+                if d.ended != "quiet":
+                    labels.add("reset-inside-startup-wait" if d.phy.busy_last < 0 and not d.tx_log else
+                               ("reset-mid-" + P.STATE_NAMES[d.phy.state] if not d.phy.idle() else
+                                ("reset-mid-transmission" if d.tx is not None else "reset-before-quiet")))
+                else:
+                    labels.add("reset-when-quiet")
+                if nondefault:
+                    labels.add("reset-with-nondefault-phy-registers")
+        if len(drv.done) != len(epochs):
+            raise RuntimeError("reset chain driver stopped early without a verdict")
+        labels.add("real-startup-wait" if real else "scaled-startup-wait")
+        labels.add(f"epochs={len(epochs)}")
+        if any(ep["drv"].tx_log for ep in drv.done):
+            labels.add("with-transmission")
+        if any(e.get("late") for epc in epochs for e in epc["ev"]) and any(not e.get("late") for epc in epochs for e in epc["ev"]):
+            labels.add("events-inside-and-after-wait")
+        return Result(ok=True, nontrivial=nontrivial, labels=tuple(sorted(labels)))
+
+
+SUBS = [Converge(), ResetConverge(), ResetConverge(real=True)]
